@@ -606,7 +606,7 @@ var tableSideConditions = map[string]func(p *load.Prog) (bool, string){
 			return false, "parseLine no longer recovers: its deferred function does not call recover() itself (recover only stops a panic when the deferred function calls it directly), so a HUSB/WIFE/CHIL line before any FAM record panics out of Decode"
 		}
 		found := false
-		for _, an := range dc.AnonFuncs {
+		for _, an := range copyCallbacks(p, dc) {
 			if len(su.CallsTo(an, sc)) == 0 {
 				continue
 			}
@@ -623,6 +623,10 @@ var tableSideConditions = map[string]func(p *load.Prog) (bool, string){
 				for _, ref := range *val.Referrers() {
 					if st, ok := ref.(*ssa.Store); ok && st.Val == val {
 						if _, isFV := st.Addr.(*ssa.FreeVar); isFV {
+							found = true
+						}
+						// the copier's state kept in a struct: a field of the callback's receiver
+						if fa, isFA := st.Addr.(*ssa.FieldAddr); isFA && len(an.Params) > 0 && fa.X == ssa.Value(an.Params[0]) {
 							found = true
 						}
 					}
@@ -789,6 +793,9 @@ func (c *e1ctx) discharge(s *e1.Site) (string, bool) {
 		if r, ok := c.ruleSyncMap(s); ok {
 			return r, true
 		}
+		if r, ok := c.ruleEntityMap(s); ok {
+			return r, true
+		}
 	case "P3":
 		if r, ok := c.ruleRegex(s); ok {
 			return r, true
@@ -806,6 +813,9 @@ func (c *e1ctx) discharge(s *e1.Site) (string, bool) {
 			return r, true
 		}
 		if r, ok := ruleSplitFirst(s); ok {
+			return r, true
+		}
+		if r, ok := ruleFieldName(s); ok {
 			return r, true
 		}
 	case "P4":
@@ -1253,41 +1263,82 @@ func (c *e1ctx) ruleKind(s *e1.Site) (string, bool) {
 	}
 	recv := call.Common().Args[0]
 	fn := s.Fn
-	// good edges: branch edges on which recv.Kind() is one of the admissible kinds
-	good := func(b *ssa.BasicBlock, succ int) bool {
-		iff, ok := b.Instrs[len(b.Instrs)-1].(*ssa.If)
-		if !ok {
+	// kindGuarded: every path of f to block crosses an edge on which v.Kind() is one of the admissible kinds
+	kindGuarded := func(f *ssa.Function, block *ssa.BasicBlock, v ssa.Value) bool {
+		good := func(b *ssa.BasicBlock, succ int) bool {
+			switch t := b.Instrs[len(b.Instrs)-1].(type) {
+			case *ssa.If:
+				bo, ok := t.Cond.(*ssa.BinOp)
+				if !ok || (bo.Op != token.EQL && bo.Op != token.NEQ) {
+					return false
+				}
+				kc, ok := bo.X.(*ssa.Call)
+				if !ok || !su.CalleeIs(&kc.Call, "reflect", "Kind") || !sameReflectValue(kc.Call.Args[0], v) {
+					return false
+				}
+				kv, ok := su.ConstInt(bo.Y)
+				if !ok {
+					return false
+				}
+				kn := reflectKindValue[kv]
+				adm := false
+				for _, k := range kinds {
+					if k == kn {
+						adm = true
+					}
+				}
+				if !adm {
+					return false
+				}
+				if bo.Op == token.EQL {
+					return succ == 0
+				}
+				return succ == 1
+			}
 			return false
 		}
-		bo, ok := iff.Cond.(*ssa.BinOp)
-		if !ok || (bo.Op != token.EQL && bo.Op != token.NEQ) {
-			return false
+		return allPathsCross(f, block, good)
+	}
+	if !kindGuarded(fn, s.Instr.Block(), recv) {
+		// the value is a parameter of an unexported helper: every call of the helper in the repository must be guarded
+		prm, isPrm := recv.(*ssa.Parameter)
+		if !isPrm || fn.Object() == nil || fn.Object().Exported() {
+			return "", false
 		}
-		kc, ok := bo.X.(*ssa.Call)
-		if !ok || !su.CalleeIs(&kc.Call, "reflect", "Kind") || !sameReflectValue(kc.Call.Args[0], recv) {
-			return false
-		}
-		kv, ok := su.ConstInt(bo.Y)
-		if !ok {
-			return false
-		}
-		kn := reflectKindValue[kv]
-		adm := false
-		for _, k := range kinds {
-			if k == kn {
-				adm = true
+		idx := -1
+		for i, q := range fn.Params {
+			if q == prm {
+				idx = i
 			}
 		}
-		if !adm {
-			return false
+		callers := 0
+		for _, g := range c.p.Repo {
+			for _, cs := range su.CallsTo(g, fn) {
+				callers++
+				if idx < 0 || idx >= len(cs.Call.Args) || !kindGuarded(g, cs.Block(), cs.Call.Args[idx]) {
+					return "", false
+				}
+			}
+			// the helper must not be used as a value
+			for _, b := range g.Blocks {
+				for _, ins := range b.Instrs {
+					for _, op := range ins.Operands(nil) {
+						if *op == ssa.Value(fn) {
+							if ci, isCall := ins.(ssa.CallInstruction); !isCall || ci.Common().Value != ssa.Value(fn) {
+								return "", false
+							}
+						}
+					}
+				}
+			}
 		}
-		if bo.Op == token.EQL {
-			return succ == 0
+		if callers == 0 {
+			return "", false
 		}
-		return succ == 1
-	}
-	if !allPathsCross(fn, s.Instr.Block(), good) {
-		return "", false
+		if cal.Name() == "Index" {
+			return "", false
+		}
+		return fmt.Sprintf("R-kind: the value is a parameter of an unexported helper; each of its %d call(s) is only reached after a test that the argument's Kind() admits %s", callers, cal.Name()), true
 	}
 	if cal.Name() == "Index" && !loopBoundedByLen(call.Common().Args[1], recv) {
 		return "", false
@@ -2065,4 +2116,138 @@ func tagListGlobals(v ssa.Value) []*ssa.Global {
 		return nil
 	}
 	return out
+}
+
+// ruleEntityMap (R-entitymap): x.(*T) where x is the answer of entityMap.GetOrAssign: the map only ever receives what an
+// assign callback returned (the one store is in GetOrAssign itself), and every assign callback in the repository
+// returns a value of static type *T.
+func (c *e1ctx) ruleEntityMap(s *e1.Site) (string, bool) {
+	ta, ok := s.Instr.(*ssa.TypeAssert)
+	if !ok {
+		return "", false
+	}
+	call, ok := su.Strip(ta.X).(*ssa.Call)
+	if !ok {
+		return "", false
+	}
+	goa := call.Call.StaticCallee()
+	if goa == nil || goa.Name() != "GetOrAssign" || !c.p.InRepo(goa) || goa.Signature.Recv() == nil {
+		return "", false
+	}
+	mapT := goa.Signature.Recv().Type()
+	// the only store into a map of that type is the one in GetOrAssign, storing the callback's answer
+	for _, fn := range c.p.Repo {
+		for _, b := range fn.Blocks {
+			for _, ins := range b.Instrs {
+				mu, ok := ins.(*ssa.MapUpdate)
+				if !ok || !types.Identical(mu.Map.Type(), mapT) {
+					continue
+				}
+				if fn != goa {
+					return "", false
+				}
+				v, isCall := mu.Value.(*ssa.Call)
+				if !isCall || v.Call.Value != ssa.Value(goa.Params[len(goa.Params)-1]) {
+					return "", false
+				}
+			}
+		}
+	}
+	n := 0
+	for _, fn := range c.p.Repo {
+		for _, cs := range su.CallsTo(fn, goa) {
+			n++
+			var clo *ssa.Function
+			switch x := cs.Call.Args[len(cs.Call.Args)-1].(type) {
+			case *ssa.MakeClosure:
+				clo, _ = x.Fn.(*ssa.Function)
+			case *ssa.Function:
+				clo = x
+			}
+			if clo == nil {
+				return "", false
+			}
+			for _, b := range clo.Blocks {
+				ret, ok := b.Instrs[len(b.Instrs)-1].(*ssa.Return)
+				if !ok {
+					continue
+				}
+				for _, rv := range ret.Results {
+					mi, ok := rv.(*ssa.MakeInterface)
+					if !ok || !types.Identical(mi.X.Type(), ta.AssertedType) {
+						return "", false
+					}
+				}
+			}
+		}
+	}
+	if n == 0 {
+		return "", false
+	}
+	return fmt.Sprintf("R-entitymap: the entity map is only filled by GetOrAssign with what its assign callback returns, and all %d callback(s) return a %s", n, ta.AssertedType.String()), true
+}
+
+// ruleFieldName (R-fieldname): name[0] where name is reflect.StructField.Name of reflect.Type.Field(i): every field of a
+// Go struct type has a non-empty name (embedded fields are named after their type, blank fields are named "_").
+func ruleFieldName(s *e1.Site) (string, bool) {
+	ix, ok := s.Instr.(*ssa.Index)
+	if !ok {
+		return "", false
+	}
+	if k, isK := su.ConstInt(ix.Index); !isK || k != 0 {
+		return "", false
+	}
+	isFieldCall := func(v ssa.Value) bool {
+		c, ok := v.(*ssa.Call)
+		if !ok {
+			return false
+		}
+		if c.Call.IsInvoke() {
+			return c.Call.Method.Name() == "Field" && c.Call.Value.Type().String() == "reflect.Type"
+		}
+		return su.CalleeIs(&c.Call, "reflect", "Field")
+	}
+	v := ix.X
+	for d := 0; d < 6; d++ {
+		switch x := v.(type) {
+		case *ssa.Field:
+			st, ok := x.X.Type().Underlying().(*types.Struct)
+			if !ok || st.Field(x.Field).Name() != "Name" || x.X.Type().String() != "reflect.StructField" {
+				return "", false
+			}
+			if isFieldCall(x.X) {
+				return "R-fieldname: the Name of reflect.Type.Field(i); a struct field always has a non-empty name", true
+			}
+			return "", false
+		case *ssa.UnOp:
+			if x.Op != token.MUL {
+				return "", false
+			}
+			fa, ok := x.X.(*ssa.FieldAddr)
+			if !ok || su.FieldName(fa) != "Name" {
+				return "", false
+			}
+			al, ok := fa.X.(*ssa.Alloc)
+			if !ok || al.Type().(*types.Pointer).Elem().String() != "reflect.StructField" {
+				return "", false
+			}
+			n := 0
+			good := true
+			for _, ref := range *al.Referrers() {
+				if st, ok := ref.(*ssa.Store); ok && st.Addr == ssa.Value(al) {
+					n++
+					if !isFieldCall(st.Val) {
+						good = false
+					}
+				}
+			}
+			if n >= 1 && good {
+				return "R-fieldname: the Name of reflect.Type.Field(i); a struct field always has a non-empty name", true
+			}
+			return "", false
+		default:
+			return "", false
+		}
+	}
+	return "", false
 }
